@@ -107,6 +107,14 @@ def exportable(draw):
 @st.composite
 def strategy_(draw, shard):
     pool = [draw(exportable()) for _ in range(draw(st.integers(1, 3)))]
+    if draw(st.integers(0, 2)) == 0:
+        # same structure, other yields: a re-export into a used directory rewrites files of (nearly) the same size
+        twin = copy.deepcopy(pool[0])
+        k = draw(st.sampled_from([2.0, 0.5, 3.0]))
+        for c in twin["ws"]["channels"]:
+            for smp in c["samples"]:
+                smp["data"] = [v * k for v in smp["data"]]
+        pool.append(twin)
     ops = [{"op": "export", "ws": 0, "dir": 0}]
     for _ in range(draw(st.integers(1, 6))):
         if draw(st.integers(0, 2)) == 0:
